@@ -73,7 +73,9 @@ def instants(draw):
     doy = draw(st.one_of(st.sampled_from([1, 59, 60, 365, 366 if leap else 365]), st.integers(1, 366 if leap else 365)))
     ms = draw(st.one_of(st.sampled_from([0, 86_399_999, 43_200_000]), st.integers(0, 86_399_999)))
     us = draw(st.one_of(st.sampled_from([0, 999]), st.integers(0, 999)))
-    return {"year": year, "doy": doy, "ms": ms, "us": us}
+    # how many fraction digits the decimal-seconds texts of the leader carry (ms ... us)
+    digits = draw(st.sampled_from([3, 3, 4, 5, 6, 6]))
+    return {"year": year, "doy": doy, "ms": ms, "us": us, "frac_digits": digits}
 
 
 @st.composite
